@@ -28,7 +28,7 @@ func (World) Stub(prop string) []string {
 func (World) Assumptions(prop string) []string {
 	return []string{
 		"miniblocks are identified by the hash the repository itself computes (core.CalculateHash with the same marshalizer and hasher); a transaction can be re-packed by a competing block into a miniblock of other composition (same shards and type), never twice into one block; the lookup of a transaction must name the block and miniblock of the most recent record that contained the transaction",
-		"NOT asserted (probe repacked_tx_recommitted_by_repeated_record, finding candidate): block A{M1:t1,t2}, competing block B{M2:t1,t3}, then A recorded again (fork choice flips back): the repository skips the repeated record of A as a whole, so t1 keeps naming B; the transaction is relaxed until a record that is not a repetition contains it",
+		"a repeated record of a block (fork choice flips back) makes that block the most recent one for all its transactions, also for those a competing block had re-packed in between (site repeated-record-after-repack; probe repacked_tx_recommitted_by_repeated_record counts the reach)",
 		"a header hash determines its header (epoch, nonce, round): re-recording a header hash always presents the same header",
 		"no PeerBlock miniblocks and no meta block with nonce 0 are generated (the repository documents that it ignores both)",
 		"notarization fields are asserted only when (a) the miniblock has a record on disk and the notarizing meta block was delivered, (b) an OnNotarizedBlocks call happened at or after the later of the two (bounded progress: pending notifications are consumed only inside OnNotarizedBlocks), (c) no Restart fell between the delivery and that call (pending notifications are memory-only), (d) no later record of the miniblock in a DIFFERENT block (or the same block after a Restart emptied the dedup cache) rewrote the metadata; case (d) is only counted (probe notarization_wiped_by_rerecord) because the statement does not say whether a notification consumed by a dropped block's record must carry over",
